@@ -807,11 +807,11 @@ def check_c10(rep):
                         m = int(f["m"][j])
                         bound = Q // (4 * t) - 1          # |t*e_x| stays within Q/4
                         ex = rng.choice([0, bound, -bound, rng.randrange(-bound, bound + 1)])
-                        X = ((Q * m + t // 2) // t + ex) % Q
-                        e = t * X - Q * m
-                        if abs(e) > Q // 2:               # wrapped around Q: represent relative to the nearest multiple
-                            e = t * X - Q * m - (Q * t if e > 0 else -Q * t)
-                        vals.append({"X": X, "m": m, "e": t * ((Q * m + t // 2) // t + ex) - Q * m})
+                        base = (Q * m + t // 2) // t
+                        if base + ex < 0 or base + ex >= Q:      # keep the phase inside [0, Q) without wrapping
+                            ex = -ex
+                        X = base + ex
+                        vals.append({"X": X, "m": m, "e": t * X - Q * m})
                     else:
                         c = rng.choice([0, Q // 4, -(Q // 4), rng.randrange(-(Q // 4), Q // 4 + 1)])
                         X = c % Q
